@@ -83,6 +83,13 @@ func (i *interpreter) callExternal(fr *frame, fn *ssa.Function, args []value) (v
 		if in := overrideIntrinsics[name]; in != nil {
 			return in(fr, args), true
 		}
+		if !isInterpretedPath(fnPkgPath(fn)) {
+			// external function that may be interpreted: an engine model, if there is one, takes precedence
+			if in := intrinsics[name]; in != nil {
+				i.m.ex.noteIntrinsic(name)
+				return in(fr, args), true
+			}
+		}
 		if fn.Pkg != nil {
 			i.m.res.Funcs[name] = true
 		}
